@@ -974,3 +974,8 @@ def symify(a):
     for idx in np.ndindex(*a.shape):
         out[idx] = S(a[idx])
     return out
+
+
+def rawlog(a: Sym) -> Sym:
+    """log node without constant folding to named constants (so that monotonicity axioms can relate it)."""
+    return _mk("log", (a,), _h("log", a.fp))
